@@ -161,3 +161,23 @@ Theorem x_special_ok : forall nc ex umask src,
   special_code (special_worker nc ex umask src) = x_parfile_special nc ex /\
   special_code (special_worker nc ex umask src) = x_parblock_special nc ex.
 Proof. intros [|] [|] umask src; split; reflexivity. Qed.
+
+(* ---- call order of CopyHandle::new, copy_file and queue_file_blocks ---- *)
+From XcpModel Require Import Walker Ops.
+Theorem x_copy_new_steps_ok : x_copy_new_steps = copy_new_steps.
+Proof. reflexivity. Qed.
+Theorem x_copy_file_steps_ok : x_copy_file_steps = copy_file_steps.
+Proof. reflexivity. Qed.
+Theorem x_queue_file_blocks_steps_ok : x_queue_file_blocks_steps = queue_file_blocks_steps.
+Proof. reflexivity. Qed.
+
+(* ... and the model's CopyHandle::new (the prefix of Ops.copy_actions, overwrite with a backup) issues its
+   system calls in exactly that order: the extracted steps minus the ones that are not system calls of their
+   own (23 shares the probe's stat, 24 decides, 98 returns) *)
+Theorem copy_new_steps_model : forall fc src dst n len,
+  flat_map step_code_of (fst (copy_actions fc src dst (mkEnv true false (Some n) len false false [] 0))) =
+  filter (fun c => negb ((c =? 23) || (c =? 24) || (c =? 98))) x_copy_new_steps.
+Proof.
+  intros [np nt ow fs] src dst n len. unfold copy_actions. cbn [ce_dst_exists ce_same_file andb].
+  destruct ow, np, nt, fs; vm_compute; reflexivity.
+Qed.
